@@ -96,7 +96,32 @@ func lateHandoverCase(transport string) Scenario {
 	}
 }
 
+// staleReaderCase (round 10, found by the thorough tier in class restart(shutting) once the repairs of
+// round 9 had made that class generable on every transport pair): run 1 is ListenAndServe("tcp");
+// connection 1 is inside a held handler, connection 2 is idle and its goroutine sits at the entry of
+// its (decorated) Reader - after serveTCPConn's "is my run still serving" test, before readTCP;
+// Shutdown() is called and waits for the handler; the same Server value is started again and serves;
+// then the handler is let go and the Reader of connection 2 goes on: readTCP arms the read deadline
+// "if srv.started" - a flag that is true again, because of run 2 - over the past deadline Shutdown
+// has set, and sleeps for ReadTimeout (1 h). Shutdown 1 never returns, nor does the serve call of run 1.
+func staleReaderCase() Scenario {
+	return Scenario{
+		Transport: "lnsTCP", MaxTCP: -1,
+		Clients: []Client{
+			{Reqs: []Req{{Mode: "late", Until: "release"}}, Close: "end", StartAt: "reader.enter(2,1)"}, // connection 2 first
+			{Close: "end"},
+		},
+		Trigger:    "handler.enter(1,1)",
+		FallbackMs: 1000, HoldMs: 5,
+		Ctx:     "background",
+		Misuse:  []Misuse{{Op: "restartAfterShutdown"}},
+		Waits:   []memnet.Wait{{At: "reader.enter(2,1)", For: "release", Once: true, TimeoutMs: 3000}},
+		Restart: Restart{When: "shutting", Reqs: []string{"fast"}, At: "entered", HoldMs: 5, Release1: "entered2"},
+	}
+}
+
 func init() {
+	pbt.Probe(knownStaleReader, func() error { return probeScenario(staleReaderCase(), 2*time.Second) })
 	pbt.Probe(knownLateHandover, func() error {
 		if err := probeScenario(lateHandoverCase("memPacket"), 0); err != nil {
 			return err
